@@ -1,5 +1,40 @@
 import Sigc.Model
-import Sigc.Spec
-/-! property theorems for C07 (being written) -/
+import Sigc.Lemmas.Basic
+import Sigc.Lemmas.Frames
+/-!
+# C07 — disconnected slots release their functor and memory; nothing leaks
+(first theorems; the all-history invariants are being proved in Sigc/Lemmas/Inv*.lean)
+-/
 namespace Sigc.C07
+open Sigc.Model
+
+/-- the library holds functor copies only inside representations of slot variables and of list
+    cells: with no slot variable and no list, no copy of any functor is alive -/
+theorem nothing_held_without_owners (s : St) (hS : s.S = []) (hI : s.impls = []) (fid : Nat) :
+    liveCount s fid = 0 ∧ liveTotal s = 0 := by
+  simp [liveCount, liveTotal, hS, hI]
+
+/-- an invalidated representation (referenced trackable died) has released its functor copy -/
+theorem invalidate_releases (sl : SlotB) (fid : Nat) : sl.invalidate.live fid = 0 ∧ sl.invalidate.liveAll = 0 := by
+  unfold SlotB.invalidate
+  cases hr : sl.rep <;> simp [SlotB.live, SlotB.liveAll, hr]
+
+/-- `sweep()` erases exactly the empty cells: every surviving cell is non-empty, every non-empty cell survives in order -/
+theorem sweep_cells (s : St) (i : Nat) (im : Impl) (hi : aget s.impls i = some im) :
+    ∃ im', aget (sweep s i).impls i = some im' ∧ im'.cells = im.cells.filter (fun c => !c.slot.empty) := by
+  unfold sweep
+  simp only [hi]
+  rw [nullConnsList_impls]
+  exact ⟨{ im with deferred := false, cells := im.cells.filter (fun c => !c.slot.empty) }, by simp, rfl⟩
+
+/-- erasing a cell removes it (and only it) from its list -/
+theorem eraseCell_cells (s : St) (i cid : Nat) (im : Impl) (hi : aget s.impls i = some im) :
+    ∃ im', aget (eraseCell s i cid).impls i = some im' ∧ im'.cells = im.cells.filter (·.id ≠ cid) := by
+  unfold eraseCell
+  simp only [hi, nullConns_impls]
+  exact ⟨{ im with cells := im.cells.filter (·.id ≠ cid) }, by simp, rfl⟩
+
+example : liveTotal { S := [(0, { isVoid := false, slot := { rep := some { call := true, fn := some (.nest false (some (.leaf 2 []))) } } })] } = 1 := by
+  decide
+
 end Sigc.C07
